@@ -191,6 +191,7 @@ def main():
       "spec_to_code_exact_agreement": sum(1 for r in results if r.get("diffs") == []),
       "spec_drift": len(drift),
       "step_level_traces_accepted": nacc, "step_level_traces_rejected": len(rejected), "hook_events_validated": nev,
+      "float_models_that_do_not_run_themselves": sum(1 for r in results if r.get("float_model_does_not_run")),
       "random_larger_graphs": sum(1 for r in results if r["tag"] == "random" and r.get("unreal") is None),
       "fixture_model_x_recipe_pairs": sum(1 for r in results if r["tag"].startswith("fixture")),
       "terminal_scenarios_enumerated": sum(v.get("terminal_scenarios", 0) for k, v in per_cfg.items() if k not in ("random_from", "fixtures_from")),
